@@ -112,7 +112,7 @@ fn main() {
         "strz" => str_h::run(&args, &mut out, true),
         "slotmap" => slotmap_h::run(&args, &mut out),
         "flatmap" => flatmap_h::run(&args, &mut out),
-        "cap0" => { flatmap_h::observe_cap0(&mut out); vec_h::observe_cap0(&mut out); str_h::observe_cap0(&mut out); slotmap_h::observe_cap0(&mut out); }
+        "cap0" => { queue_h::observe_cap0(&mut out); flatmap_h::observe_cap0(&mut out); vec_h::observe_cap0(&mut out); str_h::observe_cap0(&mut out); slotmap_h::observe_cap0(&mut out); }
         c => { eprintln!("unknown container {}", c); std::process::exit(2); }
     }
     let _ = out.w.flush();
